@@ -654,7 +654,18 @@ fn shake_1(expression: Expression) -> Expression {
                 match shaken {
                     Expression::Nested(field, expression) => {
                         let expressions = nested.entry(field).or_insert(vec![]);
-                        (*expressions).push(*expression);
+                        match *expression {
+                            // NOTE: A block that already says "every member holds for some element"
+                            // contributes its members, it is not one member of the merged block.
+                            Expression::Match(Match::All, inner)
+                                if matches!(&*inner, Expression::BooleanGroup(BoolSym::Or, members) if members.len() > 1) =>
+                            {
+                                if let Expression::BooleanGroup(_, members) = *inner {
+                                    (*expressions).extend(members);
+                                }
+                            }
+                            expression => (*expressions).push(expression),
+                        }
                     }
                     shaken => scratch.push(shaken),
                 };
@@ -709,6 +720,14 @@ fn shake_1(expression: Expression) -> Expression {
                     let shaken = shake_1(expression);
 
                     match shaken {
+                        // NOTE: A block that says "every member holds for some element" cannot be
+                        // folded into the disjunction block of its field.
+                        Expression::Nested(field, expression)
+                            if matches!(&*expression, Expression::Match(Match::All, inner)
+                                if matches!(**inner, Expression::BooleanGroup(BoolSym::Or, _))) =>
+                        {
+                            rest.push(Expression::Nested(field, expression));
+                        }
                         Expression::Nested(field, expression) => {
                             let expressions = nested.entry(field).or_insert(vec![]);
                             (*expressions).push(*expression);
